@@ -24,6 +24,7 @@ StartEpisode ==
 
 ValidText(b) == LET p == Parse(b) IN p.ok /\ Validate(sch.pats, sch.v, p.v)
 (* diagnostic: valid if a key spelled with a needless escape is taken as a different key *)
+ValidWithFeb29EveryYear(b) == LET p == Parse(b) IN p.ok /\ ValidateLenientDates(sch.pats, sch.v, p.v)
 ValidKeepingEscapedKeysApart(b) == LET p == ParseMode(b, TRUE) IN p.ok /\ Validate(sch.pats, sch.v, p.v)
 
 (* keys of every object listed in `properties` come first, in schema order (the engine fixes *)
@@ -62,7 +63,8 @@ Explain(r) ==
     r.ev \notin {"Output", "Instance", "Check"} \/
     PrintT(<<"WHY", r.ev, "parse-ok", Parse(r.b).ok, "valid", ValidText(r.b),
              "canonical", IF Parse(r.b).ok THEN Canonical(r.b) ELSE FALSE,
-             "valid-with-escaped-keys-apart", ValidKeepingEscapedKeysApart(r.b), r>>)
+             "valid-with-escaped-keys-apart", ValidKeepingEscapedKeysApart(r.b),
+             "valid-with-feb29-every-year", ValidWithFeb29EveryYear(r.b), r>>)
 
 Step == Rec[l].ev # "Init" /\ (IF Event(Rec[l]) THEN TRUE ELSE (IOEnv.EXPLAIN = "1" /\ Explain(Rec[l]) /\ FALSE)) /\ UNCHANGED sch
 
